@@ -366,7 +366,7 @@ impl Property for P {
     }
     fn cases(tier: Tier) -> u64 {
         match tier {
-            Tier::Quick => 300_000,
+            Tier::Quick => 1_200_000,
             Tier::Thorough => 16_000_000,
         }
     }
@@ -383,4 +383,14 @@ impl Property for P {
             ("zero_width_prefix", 0.03),
         ]
     }
+}
+
+pub fn decode(data: &[u8]) -> Case {
+    let mut r = crate::fuzzdec::Reader::new(data);
+    let mode = r.u8();
+    let f = r.u8();
+    let split = match f & 3 { 0 => Split::None, 1 => Split::Hyphen, 2 => Split::Every2, _ => Split::Vowels };
+    let lb = r.u8();
+    let limit = if lb > 250 { usize::MAX } else { (lb % 10) as usize };
+    Case { word: crate::fuzzdec::text(mode, r.rest()).replace('\n', ""), ws: (f >> 2) % 3, penalty: f & 32 == 32, split, limit }
 }
